@@ -92,3 +92,8 @@ package messageview
 //@ func Decode
 //@   trusted
 //@   modifies nothing
+
+// Readers over the snapshot (assumed: they read the snapshot buffer only).
+//@ func (*MessageView).BodyReader
+//@   trusted
+//@   ensures (result1 == nil) == (result0 != nil)
